@@ -101,6 +101,11 @@ func BoxesGen(lo, hi int) *rapid.Generator[[]string] {
 				add(s)
 			}
 		}
+		if rapid.IntRange(0, 5).Draw(t, "longmates") == 0 {
+			for _, s := range LongMates() {
+				add(s)
+			}
+		}
 		pool := NamePool()
 		for len(out) < n {
 			add(rapid.SampledFrom(pool).Draw(t, "box"))
